@@ -58,7 +58,10 @@ def run(ctx):
             continue
         evals += 1
         for k in agg:
-            agg[k] += int(kv.get(k, "0") or 0)
+            try:
+                agg[k] += int(kv.get(k, "0") or 0)
+            except ValueError:
+                ctx.oblige("driver-output-wellformed", False, line[:200])
         if int(kv.get("touched", "0") or 0) >= 1 and int(kv.get("kept", "0") or 0) + int(kv.get("shifted", "0") or 0) >= 1:
             distinct.add(hashlib.sha1(specs.get(cid, cid).encode()).hexdigest())
         if len(samples) < 5 and evals % 997 == 1:
